@@ -1,0 +1,67 @@
+//go:build verif
+
+// Machine-checked contracts for package strategy (comment-only; see /verif/DESIGN.md).
+
+package strategy
+
+//@ heapview (*infoHeap) = self.infos
+//@ heapview (*infoHeapForGlobalStrategy) = *self
+
+//@ # Candidate nodes handed to a strategy: distinct names, non-negative capacities and counts.
+//@ pred validInfos(infos []Info, need int, limit int) =
+//@      need >= 1 && need <= 4294967296 && limit >= 0
+//@   && (forall i, j :: 0 <= i && i < j && j < len(infos) ==> infos[i].Nodename != infos[j].Nodename)
+//@   && (forall i :: 0 <= i && i < len(infos) ==> infos[i].Capacity >= 0 && 0 <= infos[i].Count && infos[i].Count <= 4294967296
+//@                                              && infos[i].Usage >= 0.0 && infos[i].Rate >= 0.0)
+
+//@ func AveragePlan
+//@   requires validInfos(infos, need, limit)
+//@   modifies infos[_]
+//@   ensures[C01.each-keys]   err == nil ==> forall n string :: n in result0 ==> exists i :: 0 <= i && i < len(infos) && old(infos[i].Nodename) == n
+//@   ensures[C01.each-amount] err == nil ==> forall n string :: n in result0 ==> result0[n] == need
+//@   # infos is reordered in place (a permutation, by the sort contract): capacity is stated on the reordered records
+//@   ensures[C01.each-cap]    err == nil ==> forall i :: 0 <= i && i < len(infos) && infos[i].Nodename in result0 ==> need <= infos[i].Capacity
+//@   ensures[C01.each-count]  err == nil ==> card(result0) == (limit == 0 ? len(infos) : limit)
+//@   ensures[C01.each-refuse] err != nil ==> result0 == nil
+//@   loop 1:
+//@     invariant forall a, b :: 0 <= a && a < b && b < len(infos) ==> infos[a].Nodename != infos[b].Nodename
+//@     invariant 1 <= limit && limit <= len(infos) && forall k :: 0 <= k && k < limit ==> infos[k].Capacity >= need
+//@     invariant forall n string :: n in deployMap ==> exists k :: 0 <= k && k <= rangeindex && infos[k].Nodename == n
+//@     invariant forall k :: 0 <= k && k <= rangeindex ==> infos[k].Nodename in deployMap
+//@     invariant forall n string :: n in deployMap ==> deployMap[n] == need
+//@     invariant card(deployMap) == rangeindex + 1 && fresh(deployMap) && deployMap != nil
+
+//@ func FillPlan
+//@   requires validInfos(infos, need, limit) && len(infos) <= 1048576
+//@   modifies infos[_]
+//@   # a plan is produced exactly when the error is nil or "already filled"
+//@   ensures[C01.fill-plan]   (result0 != nil) <==> (err == nil || err == types.ErrAlreadyFilled)
+//@   # infos is reordered in place (a permutation, by the sort contract): the plan is stated on the reordered records
+//@   ensures[C01.fill-level]  result0 != nil ==> forall n string :: n in result0 ==> exists i :: 0 <= i && i < len(infos)
+//@                               && infos[i].Nodename == n && infos[i].Count + infos[i].Capacity >= need
+//@                               && result0[n] == max(need - infos[i].Count, 0) && result0[n] <= infos[i].Capacity
+//@   ensures[C01.fill-count]  result0 != nil ==> card(result0) == (limit == 0 ? len(infos) : limit)
+//@   loop 1:
+//@     invariant forall a, b :: 0 <= a && a < b && b < len(infos) ==> infos[a].Nodename != infos[b].Nodename
+//@     invariant forall k :: 0 <= k && k < len(infos) ==> infos[k].Capacity >= 0 && 0 <= infos[k].Count && infos[k].Count <= 4294967296
+//@     invariant forall n string :: n in deployMap ==> exists k :: 0 <= k && k <= rangeindex && infos[k].Nodename == n
+//@                               && infos[k].Count + infos[k].Capacity >= need
+//@                               && deployMap[n] == max(need - infos[k].Count, 0) && deployMap[n] <= infos[k].Capacity
+//@     invariant (limit >= 1 || len(infos) == 0) && card(deployMap) + limit == (old(limit) == 0 ? len(infos) : old(limit))
+//@     invariant fresh(deployMap) && deployMap != nil && err == nil
+//@     invariant 0 <= toDeploy && toDeploy <= (rangeindex + 1) * 4294967296
+
+//@ func DrainedPlan
+//@   requires validInfos(infos, need, 0)
+//@   ensures[C01.drained-keys]  err == nil ==> forall n string :: n in result0 ==> exists i :: 0 <= i && i < len(infos)
+//@                                 && infos[i].Nodename == n && 0 <= result0[n] && result0[n] <= infos[i].Capacity
+//@   ensures[C01.drained-total] err == nil ==> msum(result0) == need
+//@   ensures[C01.drained-refuse] err != nil ==> result0 == nil
+//@   loop 1:
+//@     invariant 0 <= idx && idx <= len(infosCopy) && len(infosCopy) == len(infos) && fresh(infosCopy) && allocated(infosCopy)
+//@     invariant forall a, b :: 0 <= a && a < b && b < len(infosCopy) ==> infosCopy[a].Nodename != infosCopy[b].Nodename
+//@     invariant forall k :: 0 <= k && k < len(infosCopy) ==> infosCopy[k].Capacity >= 0
+//@                            && exists i :: 0 <= i && i < len(infos) && infos[i] == infosCopy[k]
+//@     invariant need >= 1 && msum(deploy) + need == old(need) && fresh(deploy) && deploy != nil
+//@     invariant forall n string :: n in deploy ==> exists k :: 0 <= k && k < idx && infosCopy[k].Nodename == n
+//@                            && 0 <= deploy[n] && deploy[n] <= infosCopy[k].Capacity
